@@ -47,6 +47,7 @@ def body(run: Run, replay):
                          (5, 1, ("MC_Op4_c1.cfg", "MC_Op4_c2.cfg", "MC_Op4_c3.cfg", "MC_Op4_c4.cfg"))):
         if not shape_sweep(run, np, sp, op4, nr, nc, cfgs, quick):
             return
+    single_values(run, np, sp, op4)
     large_cases(run, np, sp, op4)
     run.exhaustive = not quick
 
@@ -71,7 +72,7 @@ def shape_sweep(run, np, sp, op4, nr, nc, cfgs, quick):
             if quick and (pi + oi) % 3:
                 continue
             for cplx in (False, True):
-                for intype in ("ndarray", "coo", "csr"):
+                for intype in ("ndarray", "coo", "csr", "coo_dup", "csr_noncanon"):
                     if quick and (pi + oi + (1 if cplx else 0)) % 2 and intype != "ndarray":
                         continue
                     # 1-3 matrices per file: the pattern under test + companions (rotating patterns)
@@ -98,6 +99,25 @@ def shape_sweep(run, np, sp, op4, nr, nc, cfgs, quick):
                             inputs.append(A)
                         elif intype == "coo":
                             inputs.append(sp.coo_matrix(A))
+                        elif intype == "coo_dup":
+                            # an assembled COO matrix: duplicate entries (to be summed) and explicitly stored zeros
+                            r_, c_ = np.nonzero(A)
+                            v_ = A[r_, c_]
+                            halves = v_ * 0.5
+                            okh = (halves + halves) == v_
+                            rr = np.concatenate([r_, r_[okh], [0]])
+                            cc = np.concatenate([c_, c_[okh], [0]])
+                            vv = np.concatenate([np.where(okh, halves, v_), halves[okh], [0.0]])
+                            inputs.append(sp.coo_matrix((vv, (rr, cc)), shape=A.shape))
+                        elif intype == "csr_noncanon":
+                            m_ = sp.csr_matrix(A)
+                            m_.indices = m_.indices.copy()
+                            for i_ in range(A.shape[0]):     # reverse the column order inside each row: unsorted indices
+                                a_, b_ = m_.indptr[i_], m_.indptr[i_ + 1]
+                                m_.indices[a_:b_] = m_.indices[a_:b_][::-1]
+                                m_.data[a_:b_] = m_.data[a_:b_][::-1]
+                            m_.has_sorted_indices = False
+                            inputs.append(m_)
                         else:
                             inputs.append(sp.csr_matrix(A))
                     case = {"pattern": pats, "binary": binary, "sparse": sparse_mode, "endian_or_digits": extra, "complex": cplx,
@@ -118,6 +138,53 @@ def shape_sweep(run, np, sp, op4, nr, nc, cfgs, quick):
                         run.sample(case)
     run.extra["files_written_%dx%d" % (nr, nc)] = nfile
     return True
+
+
+def single_values(run, np, sp, op4):
+    """every stress value ALONE in a matrix (so that no other entry widens the field) x both signs x digits x layouts:
+    the boundaries of the two/three-digit exponent field (values that round UP to 1.0E+100 at the requested digits)"""
+    import os
+    import tempfile
+    vals = set()
+    for d in (5, 7, 9, 12, 15, 16):
+        # the largest double whose d-digit rounding still has a 2-digit exponent, and the next one that rounds up
+        vals.update([float("9." + "9" * d + "4e99"), float("9." + "9" * d + "6e99"), float("9." + "9" * (d - 1) + "4e-100"),
+                     float("9." + "9" * d + "6e-100")])
+    vals.update(C.VAL_D + SPECIALS)
+    for x0 in sorted(vals):
+        for sign in (1.0, -1.0):
+            x = sign * abs(x0)
+            for digits in (5, 7, 9, 12, 15, 16):
+                if abs(float("%.*E" % (digits, x))) == float("inf"):
+                    continue
+                for mode in ("dense", "bigmat", "nonbigmat"):
+                    if (digits + len(mode)) % 2 and run.tier == "quick":
+                        continue
+                    A = np.zeros((3, 2))
+                    A[1, 0] = x
+                    A[1, 1] = 1.0
+                    A[2, 1] = x
+                    case = {"single_value": repr(x), "digits": digits, "sparse": mode}
+                    tags = {"kind": "ascii", "neg_3digit_exp": x < 0 and (abs(x) >= 9.9e99 or abs(x) < 1e-99)}
+                    run.case(json.dumps(case), part="single stress value per matrix (ASCII)")
+                    fd, path = tempfile.mkstemp(suffix=".op4", prefix="verif_s_")
+                    os.close(fd)
+                    try:
+                        op4.write(path, ["a"], [A], binary=False, digits=digits, sparse=mode)
+                        var, blocks = P.tokenize(open(path, "rb").read())
+                        exp = np.vectorize(lambda y: float("%.*E" % (digits, y)))(A)
+                        got = np.array(P.place(blocks[0]))
+                        back = op4.read(path)["a"]
+                        if not np.array_equal(got, exp) or not np.array_equal(back, exp):
+                            run.violation("ASCII write/read of a matrix holding only %r at %d digits: read back %r" % (x, digits, back.tolist()), case, tags)
+                        run.trace_validated()
+                    except (P.FormatError, ValueError, IndexError) as ex:
+                        run.violation("ASCII write of a matrix holding only %r at %d digits is not a legal/readable file: %s" % (x, digits, ex), case, tags)
+                    finally:
+                        try:
+                            os.unlink(path)
+                        except OSError:
+                            pass
 
 
 def large_cases(run, np, sp, op4):
